@@ -6,7 +6,7 @@
 # 2. the quick checks of the given properties are run against the patched snapshot
 D="$1"; shift
 export CARGO_NET_OFFLINE=true
-SV=/tmp/sv
+SV=${SV:-/tmp/sv}
 mkdir -p $SV/verif
 exec 8>$SV/.lock; flock 8
 # refresh the snapshot of /verif (committed state), keep its target dir
